@@ -151,6 +151,19 @@ class Slicer:
             self._cache[key] = v
         return v
 
+    def const_init(self, path):
+        """value of a const item / promoted, from its initialiser MIR"""
+        f = self.prog.fns.get(path)
+        if f is None or f.argc != 0:
+            return None
+        key = ('constinit', path)
+        if key in self._cache:
+            return self._cache[key]
+        self._cache[key] = ('constitem', path, None)   # recursion guard
+        v = self.local(f, 0)
+        self._cache[key] = v
+        return v
+
     # -- internals ----------------------------------------------------------------------------
     def _const(self, k):
         if 'fn' in k:
@@ -164,7 +177,14 @@ class Slicer:
                 cv = const_value({'v': c['value']})
                 if cv is not None:
                     return ('const', cv)
+            init = self.const_init(k['item'])
+            if init is not None:
+                return init
             return ('constitem', k['item'], k.get('pp'))
+        if 'item' in k and 'promoted' in k:
+            init = self.const_init('%s::promoted[%d]' % (k['item'], k['promoted']))
+            if init is not None:
+                return init
         if k.get('ty') == '()':
             return ('tuple', ())
         return ('constitem', k.get('item'), k.get('pp'))
@@ -207,6 +227,11 @@ class Slicer:
                 return ('residual', b[2][0])
         if k == 'phi':
             return ('phi', tuple(self._field(x, name) for x in v[1]))
+        if k == 'updated':
+            for proj, uv in v[2]:
+                if proj == '.' + name:
+                    return uv
+            return self._field(v[1], name)
         if k == 'closure_env' and name.isdigit():
             return self._upvar(v[1], int(name))
         return ('field', v, name)
@@ -266,7 +291,20 @@ class Slicer:
                 return ('agg', None, None, tuple(comps))
             return ('unknown', 'no-def _%d in %s' % (local, fn.path))
         vals = [self._def_value(fn, dd, seen, d) for dd in defs]
-        return _phi(vals)
+        v = _phi(vals)
+        return self._with_updates(fn, local, v, seen, d)
+
+    def _with_updates(self, fn, local, v, seen, d):
+        """record field assignments made after the whole definition: ('updated', base, ((proj, value)...))"""
+        ups = []
+        for dd in fn.partial_defs(local):
+            kind, bi, si, rv, pl = dd
+            if kind == 'stmt':
+                proj = ''.join(x for x in pl[1:] if x != '*')
+                ups.append((proj, self._rvalue(fn, rv, seen, d, (bi, si))))
+        if ups:
+            return ('updated', v, tuple(ups))
+        return v
 
     def _def_value(self, fn, dd, seen, d):
         kind = dd[0]
@@ -443,6 +481,8 @@ def vstr(v, depth=0):
         return '(%s as %s)' % (s(v[1]), v[2])
     if k == 'closure_env':
         return 'env'
+    if k == 'updated':
+        return '%s with {%s}' % (s(v[1]), ', '.join('%s := %s' % (p, s(x)) for p, x in v[2]))
     if k == 'index':
         return '%s%s' % (s(v[1]), v[2])
     if k == 'unknown':
